@@ -32,7 +32,7 @@ def plan(tier, seed):
     n = 260 if tier == "quick" else 5000
     return {"shards": 16, "timeout": 900 if tier == "quick" else 3600, "n": n,
             "floors": {"renderings_compared": n * 8, "reader_postconditions": n, "empty_run_cases": 60, "distinct": 100,
-                       "foreign_encodings_compared": n, "text_dialect_cases": n // 2}}
+                       "foreign_encodings_compared": n, "text_dialect_cases": n // 2, "dict_blank_cell_cases": n // 4}}
 
 
 def base_form(rng, i):
@@ -230,6 +230,30 @@ def run_shard(ctx):
         ts = typify(sheets, rng)
         compare_all(ctx, form, ts, sig, "typed", ["xlsx", "xls"], rng)
         reader_postconditions(ctx, ts, form, "typed")
+        # (2a') the dict a table reader hands over (csv.DictReader and the like): every row carries every header, blank cells spelt "" or blanks
+        if i % 2 == 0:
+            refb = drive.call_convert(render.to_dict(sheets), **dict(form.args))
+            if refb.ok or refb.exc_is_pyxform:
+                db = render.to_dict(sheets)
+                filled = 0
+                for shn, (hdrs_, _rows) in sheets.items():
+                    key_ = shn.strip().lower()
+                    if key_ not in db:
+                        continue
+                    for rd_ in db[key_]:
+                        if not rd_:
+                            continue  # a blank spacer row stays blank
+                        for h_ in hdrs_:
+                            if isinstance(h_, str) and h_ not in rd_:
+                                rd_[h_] = rng.choice(["", "", " ", "  ", "\t", "\u00a0"])
+                                filled += 1
+                o = drive.call_convert(db, **dict(form.args))
+                ctx.ctr("dict_blank_cell_cases")
+                ctx.case(sig=f"{sig}|dict|blank-cells")
+                d = outcome_diff(refb, o)
+                if d and filled:
+                    ctx.viol(f"differs:dict:blank-cells-spelt-as-empty-text:{d[0]}", f"[dict] the same rows with their blank cells spelt as '' / blanks ({filled} cells) "
+                             f"differ from the rows without them in {d[0]}: {d[1]}"[:900], common.witness(form, fmt="dict", variant="blank-cells", sheets=_jsonable(sheets)))
         # (2b) the same typed workbook as other producers encode it (inline strings, rich-text runs with phonetic text, formula cells
         #      with cached values, no <dimension>, CR LF between rows): every encoding must read like the openpyxl encoding of the cells
         if i % 3 == 0 or ctx.tier == "thorough":
